@@ -43,22 +43,22 @@ Section R56.
   Definition em_of (d : crypt_dict) : bool := d_em d || (d_v d <? 4)%Z.
 
   (* what the code makes of an unwrapped key *)
-  Definition finish56 (m : method) (d : crypt_dict) (k : bytes) : res decoder :=
-    if negb (lenN k =? 32) then Err E_OTHER else Ok (decoder_new k 32 m (em_of d)).
+  Definition finish56 (m ms : method) (d : crypt_dict) (k : bytes) : res decoder :=
+    if negb (lenN k =? 32) then Err E_OTHER else Ok (decoder_with k 32 m ms (em_of d)).
 
-  Definition result56 (m : method) (d : crypt_dict) (r : option bytes) : res decoder :=
-    match r with Some k => finish56 m d k | None => Err E_INVALID_PASSWORD end.
+  Definition result56 (m ms : method) (d : crypt_dict) (r : option bytes) : res decoder :=
+    match r with Some k => finish56 m ms d k | None => Err E_INVALID_PASSWORD end.
 
   (** from_password, revisions 5 and 6, is Algorithm 2.A with the user test first: for every dictionary whose U and O have
       48 bytes and whose UE/OE are whole AES blocks, every preparable password and every fuel on which the hashes are defined *)
-  Theorem from_password_56_refines : forall fuel R m d pass p ue oe ru ro,
+  Theorem from_password_56_refines : forall fuel R m ms d pass p ue oe ru ro,
     PREP pass = Some p -> lenN (d_u d) = 48 -> lenN (d_o d) = 48 ->
     d_ue d = Some ue -> d_oe d = Some oe -> lenN ue mod 16 = 0 -> lenN oe mod 16 = 0 ->
     alg2a_user SHA256 SHA384 SHA512 AESE AESD R fuel (pw56 p) (d_u d) ue = Some ru ->
     (ru = None -> alg2a_owner SHA256 SHA384 SHA512 AESE AESD R fuel (pw56 p) (d_o d) (d_u d) oe = Some ro) ->
-    FP56 fuel R m d pass = match ru with Some k => finish56 m d k | None => result56 m d ro end.
+    FP56 fuel R m ms d pass = match ru with Some k => finish56 m ms d k | None => result56 m ms d ro end.
   Proof.
-    intros fuel R m d pass p ue oe ru ro Hp HU HO Hue Hoe Lue Loe Hu Ho.
+    intros fuel R m ms d pass p ue oe ru ro Hp HU HO Hue Hoe Lue Loe Hu Ho.
     unfold from_password_56. rewrite HU, HO. cbn [N.eqb Pos.eqb negb].
     unfold prep at 1. cbn [bind]. rewrite Hp, take_127, Hue, Hoe. cbv beta zeta.
     unfold alg2a_user in Hu. fold (vsalt (d_u d)) (ksalt (d_u d)) (vsalt (d_o d)) (ksalt (d_o d)).
@@ -79,10 +79,10 @@ Section R56.
   Qed.
 
   (* ------------------------------------------------------------ at the level of Decoder::from_password *)
-  Definition std_56_dict (d : crypt_dict) (R : N) (m : method) : Prop :=
-    (exists bits, crypt_method d = Ok (bits, m)) /\ d_r d = R /\ (R = 5 \/ R = 6).
+  Definition std_56_dict (d : crypt_dict) (R : N) (m ms : method) : Prop :=
+    (exists bits, crypt_method d = Ok (bits, m, ms)) /\ d_r d = R /\ (R = 5 \/ R = 6).
 
-  Lemma from_password_56_entry fuel d id0 pass R m : std_56_dict d R m -> FP fuel d id0 pass = FP56 fuel R m d pass.
+  Lemma from_password_56_entry fuel d id0 pass R m ms : std_56_dict d R m ms -> FP fuel d id0 pass = FP56 fuel R m ms d pass.
   Proof.
     intros ([bits Hcm] & Hr & HR). unfold from_password. rewrite Hcm. cbn [bind]. rewrite Hr.
     destruct HR as [-> | ->]; reflexivity.
@@ -127,43 +127,43 @@ Section R56.
 
   (** a dictionary whose U and UE were written by Algorithm 8 for the (prepared) user password opens with it and the
       decoder holds the file key *)
-  Theorem open_user_56 : forall fuel d id0 upw p R m hv hk vs ks fk oe,
-    std_56_dict d R m -> PREP upw = Some p ->
+  Theorem open_user_56 : forall fuel d id0 upw p R m ms hv hk vs ks fk oe,
+    std_56_dict d R m ms -> PREP upw = Some p ->
     lenN vs = 8 -> lenN ks = 8 -> lenN fk = 32 ->
     HASH R fuel (pw56 p) vs [] = Some hv -> HASH R fuel (pw56 p) ks [] = Some hk ->
     d_u d = alg8_U hv vs ks -> d_ue d = Some (alg8_UE AESE hk fk) ->
     lenN (d_o d) = 48 -> d_oe d = Some oe -> lenN oe mod 16 = 0 ->
-    opens_with (FP fuel d id0 upw) 32 fk m (em_of d).
+    opens_with (FP fuel d id0 upw) 32 fk m ms (em_of d).
   Proof.
-    intros fuel d id0 upw p R m hv hk vs ks fk oe Hd Hp Lvs Lks Lfk Hhv Hhk HU HUE LO HOE Loe.
+    intros fuel d id0 upw p R m ms hv hk vs ks fk oe Hd Hp Lvs Lks Lfk Hhv Hhk HU HUE LO HOE Loe.
     pose proof (hash56_len _ _ _ _ _ _ Hhv) as Lhv.
-    rewrite (from_password_56_entry fuel d id0 upw R m Hd).
+    rewrite (from_password_56_entry fuel d id0 upw R m ms Hd).
     assert (Lue : lenN (alg8_UE AESE hk fk) mod 16 = 0) by (unfold alg8_UE; rewrite aes_len, Lfk; reflexivity).
     assert (LU : lenN (d_u d) = 48) by (rewrite HU; apply layout_len; assumption).
     assert (Hu : alg2a_user SHA256 SHA384 SHA512 AESE AESD R fuel (pw56 p) (d_u d) (alg8_UE AESE hk fk) = Some (Some fk)).
     { unfold alg2a_user. rewrite HU. unfold alg8_U.
       rewrite layout_vsalt, layout_ksalt, layout_hash by assumption.
       rewrite Hhv, bytes_eqb_refl, Hhk. unfold alg8_UE. rewrite aes_inv by (rewrite Lfk; reflexivity). reflexivity. }
-    rewrite (from_password_56_refines fuel R m d upw p _ oe _ None Hp LU LO HUE HOE Lue Loe Hu) by discriminate.
+    rewrite (from_password_56_refines fuel R m ms d upw p _ oe _ None Hp LU LO HUE HOE Lue Loe Hu) by discriminate.
     unfold finish56. rewrite Lfk. cbn [N.eqb Pos.eqb negb]. eexists. split; [reflexivity|].
-    cbn [decoder_new k_size k_key k_method k_enc_obj k_meta_obj k_em].
+    cbn [decoder_with k_size k_key k_method k_smethod k_enc_obj k_meta_obj k_em].
     repeat split; try reflexivity. apply take_all. lia.
   Qed.
 
   (** a dictionary whose O and OE were written by Algorithm 9 for the (prepared) owner password opens with it and the decoder
       holds the file key (premise: the owner password is not also accepted as the user password) *)
-  Theorem open_owner_56 : forall fuel d id0 opw p R m hx ho hk vs ks fk ue,
-    std_56_dict d R m -> PREP opw = Some p ->
+  Theorem open_owner_56 : forall fuel d id0 opw p R m ms hx ho hk vs ks fk ue,
+    std_56_dict d R m ms -> PREP opw = Some p ->
     lenN vs = 8 -> lenN ks = 8 -> lenN fk = 32 ->
     lenN (d_u d) = 48 -> d_ue d = Some ue -> lenN ue mod 16 = 0 ->
     HASH R fuel (pw56 p) (vsalt (d_u d)) [] = Some hx -> hx <> take 32 (d_u d) ->
     HASH R fuel (pw56 p) vs (d_u d) = Some ho -> HASH R fuel (pw56 p) ks (d_u d) = Some hk ->
     d_o d = alg9_O ho vs ks -> d_oe d = Some (alg9_OE AESE hk fk) ->
-    opens_with (FP fuel d id0 opw) 32 fk m (em_of d).
+    opens_with (FP fuel d id0 opw) 32 fk m ms (em_of d).
   Proof.
-    intros fuel d id0 opw p R m hx ho hk vs ks fk ue Hd Hp Lvs Lks Lfk LU HUE Lue Hhx Hne Hho Hhk HO HOE.
+    intros fuel d id0 opw p R m ms hx ho hk vs ks fk ue Hd Hp Lvs Lks Lfk LU HUE Lue Hhx Hne Hho Hhk HO HOE.
     pose proof (hash56_len _ _ _ _ _ _ Hho) as Lho.
-    rewrite (from_password_56_entry fuel d id0 opw R m Hd).
+    rewrite (from_password_56_entry fuel d id0 opw R m ms Hd).
     assert (Loe : lenN (alg9_OE AESE hk fk) mod 16 = 0) by (unfold alg9_OE; rewrite aes_len, Lfk; reflexivity).
     assert (LO : lenN (d_o d) = 48) by (rewrite HO; apply layout_len; assumption).
     assert (Hu : alg2a_user SHA256 SHA384 SHA512 AESE AESD R fuel (pw56 p) (d_u d) ue = Some None).
@@ -172,16 +172,16 @@ Section R56.
     { unfold alg2a_owner. rewrite HO. unfold alg9_O.
       rewrite layout_vsalt, layout_ksalt, layout_hash by assumption.
       rewrite Hho, bytes_eqb_refl, Hhk. unfold alg9_OE. rewrite aes_inv by (rewrite Lfk; reflexivity). reflexivity. }
-    rewrite (from_password_56_refines fuel R m d opw p ue _ _ _ Hp LU LO HUE HOE Lue Loe Hu (fun _ => Ho)).
+    rewrite (from_password_56_refines fuel R m ms d opw p ue _ _ _ Hp LU LO HUE HOE Lue Loe Hu (fun _ => Ho)).
     unfold result56, finish56. rewrite Lfk. cbn [N.eqb Pos.eqb negb]. eexists. split; [reflexivity|].
-    cbn [decoder_new k_size k_key k_method k_enc_obj k_meta_obj k_em].
+    cbn [decoder_with k_size k_key k_method k_smethod k_enc_obj k_meta_obj k_em].
     repeat split; try reflexivity. apply take_all. lia.
   Qed.
 
   (** a password that is neither the user password (Algorithm 11) nor the owner password (Algorithm 12), and a password
       that SASLprep rejects, end in InvalidPassword *)
-  Theorem wrong_pw_56 : forall fuel d id0 pw R m ue oe,
-    std_56_dict d R m -> lenN (d_u d) = 48 -> lenN (d_o d) = 48 ->
+  Theorem wrong_pw_56 : forall fuel d id0 pw R m ms ue oe,
+    std_56_dict d R m ms -> lenN (d_u d) = 48 -> lenN (d_o d) = 48 ->
     d_ue d = Some ue -> d_oe d = Some oe -> lenN ue mod 16 = 0 -> lenN oe mod 16 = 0 ->
     (PREP pw = None \/
      exists p, PREP pw = Some p /\
@@ -189,26 +189,26 @@ Section R56.
        alg2a_owner SHA256 SHA384 SHA512 AESE AESD R fuel (pw56 p) (d_o d) (d_u d) oe = Some None) ->
     FP fuel d id0 pw = Err E_INVALID_PASSWORD.
   Proof.
-    intros fuel d id0 pw R m ue oe Hd LU LO HUE HOE Lue Loe H.
-    rewrite (from_password_56_entry fuel d id0 pw R m Hd). destruct H as [Hn | (p & Hp & Hu & Ho)].
+    intros fuel d id0 pw R m ms ue oe Hd LU LO HUE HOE Lue Loe H.
+    rewrite (from_password_56_entry fuel d id0 pw R m ms Hd). destruct H as [Hn | (p & Hp & Hu & Ho)].
     - unfold from_password_56. rewrite LU, LO. cbn [N.eqb Pos.eqb negb]. unfold prep at 1. cbn [bind]. rewrite Hn. reflexivity.
-    - rewrite (from_password_56_refines fuel R m d pw p ue oe _ _ Hp LU LO HUE HOE Lue Loe Hu (fun _ => Ho)). reflexivity.
+    - rewrite (from_password_56_refines fuel R m ms d pw p ue oe _ _ Hp LU LO HUE HOE Lue Loe Hu (fun _ => Ho)). reflexivity.
   Qed.
 
   (** ... and only then: a decoder is returned iff Algorithm 11 or Algorithm 12 accepts the prepared password (and the
       unwrapped key has the 32 bytes of a file key) *)
-  Theorem accepted_iff_56 : forall fuel d id0 pw p R m ue oe ru ro,
-    std_56_dict d R m -> PREP pw = Some p -> lenN (d_u d) = 48 -> lenN (d_o d) = 48 ->
+  Theorem accepted_iff_56 : forall fuel d id0 pw p R m ms ue oe ru ro,
+    std_56_dict d R m ms -> PREP pw = Some p -> lenN (d_u d) = 48 -> lenN (d_o d) = 48 ->
     d_ue d = Some ue -> d_oe d = Some oe -> lenN ue mod 16 = 0 -> lenN oe mod 16 = 0 ->
     alg2a_user SHA256 SHA384 SHA512 AESE AESD R fuel (pw56 p) (d_u d) ue = Some ru ->
     alg2a_owner SHA256 SHA384 SHA512 AESE AESD R fuel (pw56 p) (d_o d) (d_u d) oe = Some ro ->
     ((exists dc, FP fuel d id0 pw = Ok dc) <->
      (exists k, lenN k = 32 /\ (ru = Some k \/ (ru = None /\ ro = Some k)))).
   Proof.
-    intros fuel d id0 pw p R m ue oe ru ro Hd Hp LU LO HUE HOE Lue Loe Hu Ho.
-    rewrite (from_password_56_entry fuel d id0 pw R m Hd).
-    rewrite (from_password_56_refines fuel R m d pw p ue oe _ _ Hp LU LO HUE HOE Lue Loe Hu (fun _ => Ho)).
-    assert (Hfin : forall k, (exists dc, finish56 m d k = Ok dc) <-> lenN k = 32).
+    intros fuel d id0 pw p R m ms ue oe ru ro Hd Hp LU LO HUE HOE Lue Loe Hu Ho.
+    rewrite (from_password_56_entry fuel d id0 pw R m ms Hd).
+    rewrite (from_password_56_refines fuel R m ms d pw p ue oe _ _ Hp LU LO HUE HOE Lue Loe Hu (fun _ => Ho)).
+    assert (Hfin : forall k, (exists dc, finish56 m ms d k = Ok dc) <-> lenN k = 32).
     { intros k. unfold finish56. destruct (lenN k =? 32) eqn:E; cbn [negb].
       - apply N.eqb_eq in E. split; [intros _; exact E|intros _; eexists; reflexivity].
       - apply N.eqb_neq in E. split; [intros [dc H]; discriminate|intros H; contradiction]. }
